@@ -4,6 +4,7 @@ CONSTANTS
   ValueSet <- ValuesS
   AttrSet <- AttrsS
   MaxOps = 2
+  Flags = FALSE
   FreeRaise = FALSE
   MaxCalls = 2
   L = 3
